@@ -100,8 +100,16 @@ pub fn observe_rel(o: &mut Outcome, case: &Value, text: &str, allow: bool, feats
         }
     }
     if !model { return; }
-    let ev = dump_events(&rels.verif_tree());
-    if ev != model_events(&case["o"]) {
+    let mut ev = dump_events(&rels.verif_tree());
+    let mut mev = model_events(&case["o"]);
+    if case.get("r").is_some() {
+        // generated fields: the model's tokens are abstract (length 1); compare kinds and shape only
+        for e in ev.iter_mut() { e.2 = 0; }
+        for e in mev.iter_mut() { e.2 = 0; }
+        // adjacent abstract blanks are one WHITESPACE token for the real lexer
+        mev.dedup_by(|b, a| a.0 == "t" && a.1 == "WHITESPACE" && *b == *a);
+    }
+    if ev != mev {
         o.d("tree", text, format!("allow={} real {}", allow, ev.iter().map(|e| format!("{}{}{}", e.0, e.1, e.2)).collect::<Vec<_>>().join(" ")));
     }
     if errs.len() as u64 != case["e"].as_u64().unwrap_or(0) {
@@ -124,6 +132,291 @@ pub fn run_strings(case: &Value, seed: u64) -> Outcome {
         if o.sample.is_null() && cls.len() >= 3 {
             o.sample = json!({"classes": cls.join(""), "allow_substvar": allow, "text": text, "model_tokens": case["t"], "model_errors": case["e"]});
         }
+    }
+    o
+}
+
+// ------------------------------------------------------------------ generated well-formed fields (MCRelDocs)
+
+#[derive(Debug, Clone, PartialEq)]
+pub struct RelExp {
+    pub name: String,
+    pub aq: Option<String>,
+    pub version: Option<(String, String)>,
+    pub archs: Option<Vec<String>>,
+    pub profs: Vec<Vec<(bool, String)>>,
+}
+#[derive(Debug, Clone, PartialEq)]
+pub enum ItemExp { Entry(Vec<RelExp>), Substvar(String) }
+
+const NAMES: &[&str] = &["libfoo2.0-dev", "a", "g++", "x~y", "python3-dulwich", "zlib1g"];
+const AQS: &[&str] = &["any", "native", "amd64"];
+/// two version chains in increasing Debian order (Policy 5.6.12)
+pub const VERS: [&[&str]; 2] = [&["1.0~rc1", "1.0", "1.0-1", "1.0-1+b1", "1.1", "2"], &["0.9~~", "0.9~", "0.9", "0.9+dfsg-1", "0.10", "1"]];
+const ARCHS: &[&str] = &["amd64", "i386", "linux-any", "hurd-i386"];
+const PROFS: &[&str] = &["nocheck", "stage1", "cross", "pkg.foo.bar"];
+
+/// Concretise the token kinds of a generated field by role; returns (text, per-token texts).
+pub fn concretise_field(case: &Value, map: usize) -> (String, Vec<String>) {
+    let kinds: Vec<&str> = case["t"].as_array().map(|a| a.iter().filter_map(|x| x.as_str()).collect()).unwrap_or_default();
+    let roles = case["r"].as_array().cloned().unwrap_or_default();
+    let mut texts = vec![];
+    let mut ver_seen: std::collections::HashMap<(u64, u64), usize> = std::collections::HashMap::new();
+    let mut arch_n = 0usize; let mut prof_n = 0usize; let mut sv_n = 0usize; let mut ws_n = 0usize;
+    for (i, k) in kinds.iter().enumerate() {
+        let role = roles[i][0].as_str().unwrap_or("");
+        let e = roles[i][1].as_u64().unwrap_or(0); let r = roles[i][2].as_u64().unwrap_or(0);
+        let t = match *k {
+            "COLON" => ":".to_string(), "PIPE" => "|".into(), "COMMA" => ",".into(), "L_PARENS" => "(".into(), "R_PARENS" => ")".into(),
+            "L_BRACKET" => "[".into(), "R_BRACKET" => "]".into(), "NOT" => "!".into(), "L_ANGLE" => "<".into(), "R_ANGLE" => ">".into(),
+            "EQUAL" => "=".into(), "DOLLAR" => "$".into(), "L_CURLY" => "{".into(), "R_CURLY" => "}".into(),
+            "NEWLINE" => "\n".into(),
+            "WHITESPACE" => { ws_n += 1; match map { 0 => " ".to_string(), 1 => "\t".into(), _ => [" ", "  ", "\t", " \t"][ws_n % 4].to_string() } }
+            "IDENT" => match role {
+                "name" => NAMES[(e as usize * 2 + r as usize + map) % NAMES.len()].to_string(),
+                "aq" => AQS[(e as usize + r as usize + map) % AQS.len()].to_string(),
+                "ver" => {
+                    let n = ver_seen.entry((e, r)).or_insert(0);
+                    *n += 1;
+                    // epoch form: IDENT(epoch) COLON IDENT(version): look ahead to see whether a COLON with role ver follows
+                    let is_epoch_part = *n == 1 && kinds.get(i + 1) == Some(&"COLON") && roles[i + 1][0] == "ver";
+                    if is_epoch_part { "1".to_string() } else { VERS[map % 2][(e as usize + r as usize) % VERS[map % 2].len()].to_string() }
+                }
+                "arch" => { arch_n += 1; ARCHS[(arch_n + map) % ARCHS.len()].to_string() }
+                "prof" => { prof_n += 1; PROFS[(prof_n + map) % PROFS.len()].to_string() }
+                "sv" => { sv_n += 1; if sv_n % 2 == 1 { "misc".to_string() } else { "Depends".to_string() } }
+                _ => "x".to_string(),
+            },
+            _ => "?".to_string(),
+        };
+        texts.push(t);
+    }
+    (texts.concat(), texts)
+}
+
+fn tok(texts: &[String], idx: &Value) -> String { texts[idx.as_u64().unwrap_or(1) as usize - 1].clone() }
+fn toks(texts: &[String], idxs: &Value) -> String { idxs.as_array().map(|a| a.iter().map(|i| tok(texts, i)).collect::<String>()).unwrap_or_default() }
+
+pub fn expected_items(case: &Value, texts: &[String]) -> Vec<ItemExp> {
+    case["x"].as_array().map(|items| items.iter().map(|it| {
+        if it["k"] == "S" {
+            let from = it["from"].as_u64().unwrap() as usize; let to = it["to"].as_u64().unwrap() as usize;
+            ItemExp::Substvar(texts[from - 1..to].concat())
+        } else {
+            ItemExp::Entry(it["rels"].as_array().unwrap().iter().map(|r| RelExp {
+                name: tok(texts, &r["name"]),
+                aq: if r["aq"].as_u64() == Some(0) { None } else { Some(tok(texts, &r["aq"])) },
+                version: if r["op"].as_array().map(|a| a.is_empty()).unwrap_or(true) { None } else { Some((toks(texts, &r["op"]), toks(texts, &r["ver"]))) },
+                archs: if r["hasArch"].as_bool() == Some(true) { Some(r["archs"].as_array().unwrap().iter().map(|a| format!("{}{}", if a[0].as_bool() == Some(true) { "!" } else { "" }, tok(texts, &a[1]))).collect()) } else { None },
+                profs: r["profs"].as_array().unwrap().iter().map(|g| g.as_array().unwrap().iter().map(|t| (t[0].as_bool() == Some(true), tok(texts, &t[1]))).collect()).collect(),
+            }).collect())
+        }
+    }).collect()).unwrap_or_default()
+}
+
+pub fn doc_features(case: &Value) -> Vec<String> {
+    let mut f = vec![];
+    let roles = case["r"].as_array().cloned().unwrap_or_default();
+    let kinds: Vec<&str> = case["t"].as_array().map(|a| a.iter().filter_map(|x| x.as_str()).collect()).unwrap_or_default();
+    if roles.iter().zip(kinds.iter()).any(|(r, k)| r[0] == "ver" && *k == "COLON") { f.push("has_epoch".to_string()); }
+    if case["sv"].as_bool() == Some(true) { f.push("has_substvar".to_string()); }
+    let mut neg_arch = false; let mut multi_prof = false; let mut neg_prof = false;
+    for it in case["x"].as_array().unwrap_or(&vec![]) {
+        for r in it["rels"].as_array().unwrap_or(&vec![]) {
+            if r["archs"].as_array().map(|a| a.iter().any(|x| x[0].as_bool() == Some(true))).unwrap_or(false) { neg_arch = true; }
+            for g in r["profs"].as_array().unwrap_or(&vec![]) {
+                if g.as_array().map(|a| a.len() > 1).unwrap_or(false) { multi_prof = true; }
+                if g.as_array().map(|a| a.iter().any(|x| x[0].as_bool() == Some(true))).unwrap_or(false) { neg_prof = true; }
+            }
+        }
+    }
+    if neg_arch { f.push("negated_arch".into()); }
+    if multi_prof { f.push("multi_term_profile".into()); }
+    if neg_prof { f.push("negated_profile".into()); }
+    if kinds.contains(&"NEWLINE") { f.push("has_newline".into()); }
+    f
+}
+
+pub fn lossless_rel(r: &Relation) -> Result<RelExp, String> {
+    let name = guarded("Relation::name", || r.name())?;
+    let aq = guarded("Relation::archqual", || r.archqual())?;
+    let version = guarded("Relation::version", || r.version().map(|(vc, v)| (vc.to_string(), v.to_string())))?;
+    let archs = guarded("Relation::architectures", || r.architectures().map(|a| a.collect::<Vec<_>>()))?;
+    let profs = guarded("Relation::profiles", || r.profiles().map(|g| g.into_iter().map(|p| match p {
+        debian_control::relations::BuildProfile::Enabled(s) => (false, s),
+        debian_control::relations::BuildProfile::Disabled(s) => (true, s) }).collect::<Vec<_>>()).collect::<Vec<_>>())?;
+    Ok(RelExp { name, aq, version, archs, profs })
+}
+
+pub fn lossless_structure(rels: &Relations) -> Result<(Vec<Vec<RelExp>>, Vec<String>), String> {
+    let mut es = vec![];
+    for e in rels.entries() {
+        let mut rs = vec![];
+        for r in e.relations() { rs.push(lossless_rel(&r)?); }
+        es.push(rs);
+    }
+    Ok((es, rels.substvars().collect()))
+}
+
+pub fn lossy_structure(rels: &debian_control::lossy::Relations) -> Vec<Vec<RelExp>> {
+    rels.0.iter().map(|e| e.iter().map(|r| RelExp {
+        name: r.name.clone(), aq: r.archqual.clone(),
+        version: r.version.as_ref().map(|(vc, v)| (vc.to_string(), v.to_string())),
+        archs: r.architectures.clone(),
+        profs: r.profiles.iter().map(|g| g.iter().map(|p| match p {
+            debian_control::relations::BuildProfile::Enabled(s) => (false, s.clone()),
+            debian_control::relations::BuildProfile::Disabled(s) => (true, s.clone()) }).collect()).collect(),
+    }).collect()).collect()
+}
+
+fn norm_version(e: &[Vec<RelExp>]) -> Vec<Vec<RelExp>> {
+    // expected versions are compared through debversion's own parse/print, as the accessors return Version values
+    e.iter().map(|rs| rs.iter().map(|r| { let mut r = r.clone();
+        r.version = r.version.map(|(op, v)| (op, v.parse::<debversion::Version>().map(|x| x.to_string()).unwrap_or(v))); r }).collect()).collect()
+}
+
+pub fn run_docs(case: &Value, _seed: u64) -> Outcome {
+    let mut o = Outcome::default();
+    let feats = doc_features(case);
+    let allow = case["a"].as_bool().unwrap_or(false);
+    let has_sv = case["sv"].as_bool().unwrap_or(false);
+    o.key = format!("{}", case["t"]);
+    o.nontrivial = true;
+    for m in 0..super::nmaps().min(3) {
+        let (text, texts) = concretise_field(case, m);
+        let items = expected_items(case, &texts);
+        let exp_entries: Vec<Vec<RelExp>> = norm_version(&items.iter().filter_map(|i| if let ItemExp::Entry(e) = i { Some(e.clone()) } else { None }).collect::<Vec<_>>());
+        let exp_sv: Vec<String> = items.iter().filter_map(|i| if let ItemExp::Substvar(s) = i { Some(s.clone()) } else { None }).collect();
+        // C09 / C02 on the same text, with the machine's tree as drift oracle
+        observe_rel(&mut o, case, &text, allow, &feats, true);
+        if !allow { observe_rel(&mut o, &Value::Null, &text, true, &feats, false); }
+        // ---- C10, lossless reader
+        match guarded("Relations::parse_relaxed", || Relations::parse_relaxed(&text, true)) {
+            Err(_) => {}
+            Ok((rels, errs)) => {
+                o.evals += 1;
+                if !errs.is_empty() {
+                    o.v("C10", "accept_lossless", "Relations::parse_relaxed", "mismatch", &feats, &text, format!("well-formed field reported errors {:?}", errs));
+                }
+                if !has_sv {
+                    if let Ok(Err(e)) = guarded("Relations::from_str", || Relations::from_str(&text).map(|_| ())) {
+                        o.v("C10", "accept_lossless", "Relations::from_str", "mismatch", &feats, &text, format!("well-formed field rejected: {}", e));
+                    }
+                }
+                if errs.is_empty() {
+                    match lossless_structure(&rels) {
+                        Err(m) => o.v("C10", "struct_lossless", "lossless accessors", "panic", &feats, &text, m),
+                        Ok((es, svs)) => {
+                            if es != exp_entries { o.v("C10", "struct_lossless", "lossless accessors", "mismatch", &feats, &text, format!("got {:?} expected {:?}", es, exp_entries)); }
+                            if svs != exp_sv { o.v("C10", "substvars", "Relations::substvars", "mismatch", &feats, &text, format!("got {:?} expected {:?}", svs, exp_sv)); }
+                        }
+                    }
+                }
+            }
+        }
+        // ---- C10, lossy reader (fields without substitution variables)
+        if !has_sv {
+            match guarded("lossy::Relations::from_str", || debian_control::lossy::Relations::from_str(&text)) {
+                Err(m) => o.v("C10", "accept_lossy", "lossy::Relations::from_str", "panic", &feats, &text, m),
+                Ok(Err(e)) => o.v("C10", "accept_lossy", "lossy::Relations::from_str", "mismatch", &feats, &text, format!("well-formed field rejected: {}", e)),
+                Ok(Ok(r)) => {
+                    let got = lossy_structure(&r);
+                    if got != exp_entries { o.v("C10", "struct_lossy", "lossy::Relations::from_str", "mismatch", &feats, &text, format!("got {:?} expected {:?}", got, exp_entries)); }
+                }
+            }
+            o.evals += 1;
+        }
+        if o.sample.is_null() { o.sample = json!({"text": text, "expected": format!("{:?}", items), "features": feats}); }
+    }
+    o
+}
+
+// ------------------------------------------------------------------ C13: wrap-and-sort of generated fields
+
+pub fn canon_rel(r: &RelExp) -> String {
+    let mut s = r.name.clone();
+    if let Some(a) = &r.aq { s.push(':'); s.push_str(a); }
+    if let Some((op, v)) = &r.version { s.push_str(&format!(" ({} {})", op, v)); }
+    if let Some(a) = &r.archs { s.push_str(&format!(" [{}]", a.join(" "))); }
+    for g in &r.profs {
+        s.push_str(&format!(" <{}>", g.iter().map(|(n, p)| format!("{}{}", if *n { "!" } else { "" }, p)).collect::<Vec<_>>().join(" ")));
+    }
+    s
+}
+pub fn canon_text(entries: &[Vec<RelExp>], svs: &[String], order: &[usize]) -> String {
+    // order: positions of substvars are free; canonical text lists items joined by ", "
+    let _ = order;
+    let mut items: Vec<String> = entries.iter().map(|e| e.iter().map(canon_rel).collect::<Vec<_>>().join(" | ")).collect();
+    items.extend(svs.iter().cloned());
+    items.join(", ")
+}
+fn sorted_multiset<T: Clone + std::fmt::Debug>(v: &[T]) -> Vec<String> { let mut s: Vec<String> = v.iter().map(|x| format!("{:?}", x)).collect(); s.sort(); s }
+
+pub fn run_wrap(case: &Value, _seed: u64) -> Outcome {
+    let mut o = Outcome::default();
+    let feats = doc_features(case);
+    let has_sv = case["sv"].as_bool().unwrap_or(false);
+    o.key = format!("{}", case["t"]);
+    o.nontrivial = true;
+    for m in 0..super::nmaps().min(3) {
+        let (text, texts) = concretise_field(case, m);
+        let items = expected_items(case, &texts);
+        let exp_entries: Vec<Vec<RelExp>> = norm_version(&items.iter().filter_map(|i| if let ItemExp::Entry(e) = i { Some(e.clone()) } else { None }).collect::<Vec<_>>());
+        let exp_sv: Vec<String> = items.iter().filter_map(|i| if let ItemExp::Substvar(s) = i { Some(s.clone()) } else { None }).collect();
+        let parsed = match guarded("Relations::parse_relaxed", || Relations::parse_relaxed(&text, true)) { Ok((r, e)) if e.is_empty() => r, _ => continue };
+        o.evals += 1;
+        let w = match guarded("Relations::wrap_and_sort", move || parsed.wrap_and_sort().to_string()) {
+            Ok(w) => w,
+            Err(msg) => { o.v("C13", "total", "Relations::wrap_and_sort", "panic", &feats, &text, msg); continue; }
+        };
+        // 1. parses strictly (tolerantly with substvars) and denotes the same dependencies
+        let (wr, werrs) = match guarded("Relations::parse_relaxed", || Relations::parse_relaxed(&w, true)) { Ok(x) => x, Err(msg) => { o.v("C13", "reparse", "Relations::wrap_and_sort", "panic", &feats, &text, msg); continue; } };
+        if !werrs.is_empty() || (!has_sv && Relations::from_str(&w).is_err()) {
+            o.v("C13", "reparse", "Relations::wrap_and_sort", "mismatch", &feats, &text, format!("output {:?} does not parse: {:?}", w, werrs));
+            continue;
+        }
+        let (ws, wsv) = match lossless_structure(&wr) { Ok(x) => x, Err(msg) => { o.v("C13", "reparse", "Relations::wrap_and_sort", "panic", &feats, &text, msg); continue; } };
+        let ms_exp: Vec<Vec<String>> = { let mut v: Vec<Vec<String>> = exp_entries.iter().map(|e| sorted_multiset(e)).collect(); v.sort(); v };
+        let ms_got: Vec<Vec<String>> = { let mut v: Vec<Vec<String>> = ws.iter().map(|e| sorted_multiset(e)).collect(); v.sort(); v };
+        if ms_exp != ms_got {
+            o.v("C13", "same_dependencies", "Relations::wrap_and_sort", "mismatch", &feats, &text, format!("output {:?}: entries {:?} expected (as multisets) {:?}", w, ws, exp_entries));
+        }
+        if sorted_multiset(&wsv) != sorted_multiset(&exp_sv) {
+            o.v("C13", "substvars_kept", "Relations::wrap_and_sort", "mismatch", &feats, &text, format!("output {:?}: substvars {:?} expected {:?}", w, wsv, exp_sv));
+        }
+        // 2. canonical single-line text: the output is the canonical rendering of its own structure
+        let canon = canon_text(&ws, &wsv, &[]);
+        if w != canon {
+            o.v("C13", "canonical_text", "Relations::wrap_and_sort", "mismatch", &feats, &text, format!("output {:?} canonical form of its content is {:?}", w, canon));
+        }
+        if w.contains('\n') || w.contains('\t') || w.contains("  ") {
+            o.v("C13", "canonical_text", "Relations::wrap_and_sort", "mismatch", &feats, &text, format!("output {:?} is not single-line / single-spaced", w));
+        }
+        // 3. sorted: alternatives by name inside each entry, entries by their alternatives' names
+        let names: Vec<Vec<&str>> = ws.iter().map(|e| e.iter().map(|r| r.name.as_str()).collect()).collect();
+        if names.iter().any(|e| e.windows(2).any(|p| p[0] > p[1])) || names.windows(2).any(|p| p[0] > p[1]) {
+            o.v("C13", "sorted", "Relations::wrap_and_sort", "mismatch", &feats, &text, format!("output {:?} is not sorted by name", w));
+        }
+        // 4. idempotent
+        match guarded("Relations::wrap_and_sort", move || wr.wrap_and_sort().to_string()) {
+            Ok(w2) => { if w2 != w { o.v("C13", "idempotent", "Relations::wrap_and_sort", "mismatch", &feats, &text, format!("first {:?} second {:?}", w, w2)); } }
+            Err(msg) => o.v("C13", "idempotent", "Relations::wrap_and_sort", "panic", &feats, &text, msg),
+        }
+        // Entry / Relation level
+        if let Ok((r2, e2)) = guarded("Relations::parse_relaxed", || Relations::parse_relaxed(&text, true)) {
+            if e2.is_empty() {
+                for (e, exp) in r2.entries().zip(exp_entries.iter()) {
+                    if let Ok(ew) = guarded("Entry::wrap_and_sort", || e.wrap_and_sort().to_string()) {
+                        let mut ex = exp.clone(); ex.sort_by(|a, b| a.name.cmp(&b.name));
+                        let rendered: Vec<String> = ex.iter().map(canon_rel).collect();
+                        let mut got: Vec<String> = ew.split(" | ").map(|s| s.to_string()).collect(); got.sort();
+                        let mut want = rendered.clone(); want.sort();
+                        if got != want { o.v("C13", "entry_canonical", "Entry::wrap_and_sort", "mismatch", &feats, &text, format!("entry output {:?} expected alternatives {:?}", ew, rendered)); }
+                    }
+                }
+            }
+        }
+        if o.sample.is_null() { o.sample = json!({"text": text, "wrap_and_sort": w}); }
     }
     o
 }
